@@ -38,6 +38,11 @@ def run_one(prog, seed):
         # the cyclic collector may run at any moment of a real program: here it runs before every activation
         gc.collect()
         observe = lambda it, k, loop: gc.collect()      # noqa: E731
+    if 'spy' in prog:
+        from vlib.spy import canon_spy
+        text = canon_spy(prog['spy'])
+        del keep
+        return text
     it, outcome, exc, p = execute(prog, Probe(b_step=5000, b_total=80000), wall=60, observe=observe)
     text = canon_log(it, outcome, exc)
     del keep
